@@ -92,7 +92,7 @@ CHECKS["C05"] = (
     "For all ordered pairs of complete small universes and every label mode (default, elements, constant, degree, mismatching, "
     "caller labels with colliding hashes) / stereo flag combination (flags also as numpy.bool_ / 1) the full list yielded "
     "by vf2pp_all_isomorphisms is compared as a set with the set of valid bijections found by an independent backtracking "
-    "search: no invalid mapping, none missing, none twice; symmetric graphs up to 14 atoms against themselves and relabelled "
+    "search: no invalid mapping, none missing, none twice; reaction graphs with several stereo changes of one kind meeting at one atom; symmetric graphs up to 14 atoms against themselves and relabelled "
     "copies; topological_symmetry_number against the number of stereo-preserving automorphisms.",
     "Trusted: refiso/refstereo; full-graph mode; bond roles are not part of the function's notion of structure.",
     "DESIGN.md 5/C05")
@@ -122,7 +122,7 @@ CHECKS["C10"] = (
 CHECKS["C11"] = (
     ENUM + " (specs x all injective total/partial mappings x copy/in-place; differential follow-ups against a fresh build)",
     "Every spec with <=5 atoms x all total permutations, pool injections and all partial mappings x copy/in-place: result equals "
-    "the reference renaming (also onto hash-colliding identifiers, for a 7-coordinate centre and 133-atom graphs, with numpy-typed values and back), copy and in-place agree, the inverse mapping restores the original, and every follow-up edit / "
+    "the reference renaming (also onto hash-colliding identifiers, for a 7-coordinate centre and 133-atom graphs, with numpy-typed values and back; graphs with two / four stereo centres or two stereo bonds under mappings that send one centre to the old label of another), copy and in-place agree, the inverse mapping restores the original, and every follow-up edit / "
     "==/hash/matrix/components behaves as on a freshly built graph with the same labelled content.",
     "Trusted: refgraph.relabel; mappings with injective induced total map only.", "DESIGN.md 5/C11")
 CHECKS["C15"] = (
